@@ -52,6 +52,9 @@ def profiles(tier):
     P.append(("histories", Profile("hist-structure", spec, False, hs), {"depth": d}))
     hw = A.record_weights(kn, U, [w4[0], w4[2]], batch_pairs=[(w4[0], w4[2])])
     P.append(("histories", Profile("hist-weights", spec, True, hw), {"depth": d}))
+    # deep churn histories over a tiny alphabet (insert / remove of four records): id reuse and stale tables need 5+ steps
+    P.append(("histories", Profile("hist-churn", spec, False, A.churn([(Q6[0], None), (Q6[1], None), (Q6[4], None), (Q6[2], None)])), {"depth": 8 if tier == "quick" else 10}))
+    P.append(("histories", Profile("hist-churn-weighted", spec, True, A.churn([(Q6[0], None), (Q6[1], None), (Q6[4], None), (Q6[2], None)])), {"depth": 6 if tier == "quick" else 8}))
     if tier == "thorough":
         full = all_pairs(U)
         specf = DirectedSpec(U, 99, full)
